@@ -470,4 +470,40 @@ theorem ofIndex_narrowing (i k p : Nat) : Genotype.ofIndex (i + 4294967296 * k) 
   unfold Genotype.ofIndex convertW
   rw [Nat.add_mul_mod_self_left]
 
+/-! ## the constructor depends only on the multiset; the small observers -/
+
+theorem sortAsc_perm_eq (l1 l2 : List Nat) (h : l1.Perm l2) : sortAsc l1 = sortAsc l2 := by
+  have hp : (sortAsc l1).Perm (sortAsc l2) := ((sortAsc_perm l1).trans h).trans (sortAsc_perm l2).symm
+  exact List.Perm.eq_of_pairwise (fun a b _ _ h1 h2 => Nat.le_antisymm h1 h2) (sortAsc_asc l1) (sortAsc_asc l2) hp
+
+theorem ofAlleles_perm (l1 l2 : List Nat) (h : l1.Perm l2) : Genotype.ofAlleles l1 = Genotype.ofAlleles l2 := by
+  unfold Genotype.ofAlleles
+  rw [sortAsc_perm_eq l1 l2 h, h.length_eq]
+
+theorem asVector_length (g : Genotype) : g.asVector.length = g.getPloidy := by simp [Genotype.asVector]
+
+theorem toStringL_eq (g : Genotype) : g.toStringL = if g.getPloidy = 0 then none else some g.allelesAsc := by
+  unfold Genotype.toStringL Genotype.isNone Genotype.allelesAsc
+  by_cases h : g.getPloidy = 0
+  · simp [h]
+  · obtain ⟨n, hn⟩ : ∃ n, g.getPloidy = n + 1 := ⟨g.getPloidy - 1, by omega⟩
+    rw [hn]
+    simp [List.range_succ_eq_map]
+
+theorem isHomozygous_iff (g : Genotype) :
+    g.isHomozygous = true ↔ g.getPloidy ≠ 0 ∧ ∀ x ∈ g.asVector, x = g.getPosition 0 := by
+  unfold Genotype.isHomozygous Genotype.isNone Genotype.asVector
+  by_cases h : g.getPloidy = 0
+  · simp [h]
+  · obtain ⟨n, hn⟩ : ∃ n, g.getPloidy = n + 1 := ⟨g.getPloidy - 1, by omega⟩
+    rw [hn]
+    simp [List.range_succ_eq_map]
+
+theorem isDiploidAndBiallelic_iff (g : Genotype) :
+    g.isDiploidAndBiallelic = true ↔ g.getPloidy = 2 ∧ ∀ x ∈ g.asVector, x ≤ 1 := by
+  unfold Genotype.isDiploidAndBiallelic Genotype.asVector
+  by_cases h : g.getPloidy = 2
+  · simp [h]
+  · simp [h]
+
 end WhVerif.C19
